@@ -1121,7 +1121,7 @@ func (x *Exec) havoc(st *State, fr *Frame, eff *effects) {
 		sort.Strings(ks)
 		fmt.Fprintf(os.Stderr, "[havoc] %s all=%v heap=%v\n", relName(fr.fn), eff.all, ks)
 	}
-	for al := range eff.locals {
+	for _, al := range sortedAllocs(eff.locals) {
 		cur, ok := st.locals[al]
 		if !ok {
 			continue
@@ -1129,10 +1129,10 @@ func (x *Exec) havoc(st *State, fr *Frame, eff *effects) {
 		st.locals[al] = x.freshVal("h."+al.Comment, cur.T, st)
 	}
 	if eff.all {
-		for k, a := range st.heap {
-			st.heap[k] = x.E.fresh("hv"+sanitize(k), a.S)
+		for _, k := range sortedKeysT(st.heap) {
+			st.heap[k] = x.E.fresh("hv"+sanitize(k), st.heap[k].S)
 		}
-		for k := range st.ghost {
+		for _, k := range sortedKeysT(st.ghost) {
 			if _, declared := x.E.ghostDecls[strings.TrimPrefix(k, "ghost!")]; declared && strings.HasPrefix(k, "ghost!") {
 				if !eff.ghost[k] {
 					continue // specification variables change only by `set` and `modifies`
@@ -1145,7 +1145,7 @@ func (x *Exec) havoc(st *State, fr *Frame, eff *effects) {
 			}
 		}
 	}
-	for k := range eff.heap {
+	for _, k := range sortedKeysB(eff.heap) {
 		a, ok := st.heap[k]
 		if !ok {
 			continue
@@ -1161,7 +1161,7 @@ func (x *Exec) havoc(st *State, fr *Frame, eff *effects) {
 		}
 		st.heap[k] = x.E.fresh("hv"+sanitize(k), a.S)
 	}
-	for k := range eff.ghost {
+	for _, k := range sortedKeysB(eff.ghost) {
 		if a, ok := st.ghost[k]; ok {
 			st.ghost[k] = x.E.fresh("gh"+sanitize(k), a.S)
 		} else if strings.HasPrefix(k, "ghost!") {
@@ -1272,4 +1272,38 @@ func (x *Exec) newState() *State {
 	st.brk = Var("brk@0", IntS)
 	st.assume(Le(IntC(1), st.brk))
 	return st
+}
+
+// sortedKeysB / sortedKeysT / sortedAllocs: deterministic iteration orders (fresh names are numbered in creation order,
+// and solver run times depend on names and assertion order, so generation must not depend on Go's map order)
+func sortedKeysB(m map[string]bool) []string {
+	ks := make([]string, 0, len(m))
+	for k := range m {
+		ks = append(ks, k)
+	}
+	sort.Strings(ks)
+	return ks
+}
+
+func sortedKeysT(m map[string]*Term) []string {
+	ks := make([]string, 0, len(m))
+	for k := range m {
+		ks = append(ks, k)
+	}
+	sort.Strings(ks)
+	return ks
+}
+
+func sortedAllocs(m map[*ssa.Alloc]bool) []*ssa.Alloc {
+	as := make([]*ssa.Alloc, 0, len(m))
+	for a := range m {
+		as = append(as, a)
+	}
+	sort.Slice(as, func(i, j int) bool {
+		if as[i].Pos() != as[j].Pos() {
+			return as[i].Pos() < as[j].Pos()
+		}
+		return as[i].Name() < as[j].Name()
+	})
+	return as
 }
